@@ -67,8 +67,34 @@ def main(argv=None):
         print(f"{args.prop} tier={args.tier}: {result.get('summary', '')} violations={nviol} "
               f"known={result.get('known', 0)} wall={timer():.1f}s evidence={path}")
         return 1 if nviol else 0
-    except Exception:
-        traceback.print_exc()
+    except Exception as ex:
+        tb = traceback.format_exc()
+        # (tracebacks of pool workers arrive as text inside the exception)
+        text = tb + "\n" + "".join(str(a) for a in getattr(ex, "args", ()))
+        cause = getattr(ex, "__cause__", None)
+        if cause is not None:
+            text += "\n" + str(cause)
+        libdir = os.path.join(os.environ.get("VERIF_REPO") or "/repo", "src", "vector") + os.sep
+        from_library = any(libdir in ln for ln in text.splitlines() if ln.strip().startswith("File "))
+        is_machinery = any(k in type(ex).__name__ for k in ("TLCError", "TLCViolation", "TimeoutExpired", "MemoryError")) or "vacuous" in str(ex)
+        if from_library and not is_machinery:
+            # the library raised on a call every check expects to work (the harness has no such call on the unchanged
+            # tree): that is a finding about the library, reported as such with the traceback as the replay
+            os.makedirs(common.REPLAY_DIR, exist_ok=True)
+            path = os.path.join(common.REPLAY_DIR, f"{args.prop}-uncaught-exception.json")
+            with open(path, "w") as f:
+                json.dump({"property": args.prop, "kind": "uncaught-exception-from-the-library", "traceback": text[-6000:]}, f, indent=1)
+            print(f"VIOLATION property={args.prop} replay={path}")
+            print("  the library raised inside a call the check expects to work: " + text.strip().splitlines()[-1][:300])
+            try:
+                common.write_evidence(args.prop, args.tier, "model_checking",
+                                      {"evaluations": 0, "distinct_nontrivial": 0, "states": 0, "transitions": 0, "traces_validated_against_impl": 0,
+                                       "rule": "the run was aborted by an exception raised inside the library; see the replay file",
+                                       "samples": [{"traceback_tail": text.strip().splitlines()[-3:]}], "exhaustive": False}, 0.0, 1, [])
+            except Exception:
+                pass
+            return 1
+        sys.stderr.write(tb)
         print(f"MACHINERY-FAILURE property={args.prop}", file=sys.stderr)
         return 2
 
